@@ -1,12 +1,154 @@
-(* Props/C16.v -- property C16 (provisional instances through the generated fix flags; the general theorems are being added) *)
-From Coq Require Import NArith List.
-From RP Require Import Gen.GenFixes Model.Codec Model.Parse.
+(* Props/C16.v -- property C16: parsing ANY string as a card, hand, hole, observation, street,
+   bucket (abstraction), action or player turn returns a value or an error and never aborts;
+   a returned observation has two private cards, a legal number of board cards and no card in
+   both; every value's printed form parses back to an equal value.
+   A string ([str]) is a list of arbitrary code points ([N]); no assumption is made on them.
+   Statements use only Base/ Model/ Gen/ Spec/ definitions; proofs live in Proofs/. *)
+From Coq Require Import NArith ZArith List Bool.
+From RP Require Import Base.Bits Gen.GenFixes Model.Codec Model.Parse Spec.SpecCodec Spec.SpecParseVariants.
+From RP Require Proofs.C16_Total Proofs.C16_Strings Proofs.C16_RoundTrip Proofs.C16_Examples.
 Import ListNotations.
 Open Scope N_scope.
-Theorem C16_witnesses_instance :
-  parse_card [233] = PErr /\ parse_action [] = PErr /\ parse_action [32; 9] = PErr /\
-  (* "As Ks ~ As Qd Jh" *)
-  parse_obs [65; 115; 32; 75; 115; 32; 126; 32; 65; 115; 32; 81; 100; 32; 74; 104] = PErr /\
-  parse_card (print_card 51) = POk 51.
-Proof. vm_compute. repeat split; reflexivity. Qed.
-Print Assumptions C16_witnesses_instance.
+
+(* ---------- 1. no parser aborts, on any string ---------- *)
+Theorem C16_total_card : forall s : str, parse_card s <> PPanic.
+Proof. exact C16_Total.total_card. Qed.
+Print Assumptions C16_total_card.
+
+Theorem C16_total_hand : forall s : str, parse_hand s <> PPanic.
+Proof. exact C16_Total.total_hand. Qed.
+Print Assumptions C16_total_hand.
+
+Theorem C16_total_hole : forall s : str, parse_hole s <> PPanic.
+Proof. exact C16_Total.total_hole. Qed.
+Print Assumptions C16_total_hole.
+
+Theorem C16_total_obs : forall s : str, parse_obs s <> PPanic.
+Proof. exact C16_Total.total_obs. Qed.
+Print Assumptions C16_total_obs.
+
+Theorem C16_total_street : forall s : str, parse_street s <> PPanic.
+Proof. exact C16_Total.total_street. Qed.
+Print Assumptions C16_total_street.
+
+Theorem C16_total_abs : forall s : str, parse_abs s <> PPanic.
+Proof. exact C16_Total.total_abs. Qed.
+Print Assumptions C16_total_abs.
+
+Theorem C16_total_action : forall s : str, parse_action s <> PPanic.
+Proof. exact C16_Total.total_action. Qed.
+Print Assumptions C16_total_action.
+
+Theorem C16_total_turn : forall s : str, parse_turn s <> PPanic.
+Proof. exact C16_Total.total_turn. Qed.
+Print Assumptions C16_total_turn.
+
+(* ---------- 2. the repairs are necessary ---------- *)
+(* The parameterised copies in Spec/SpecParseVariants.v are the model's parsers at the
+   generated flag values ... *)
+Theorem C16_variants_are_model :
+  (forall s, parse_card s = parse_card_with CARD_PARSE_CHECKS_BOUNDARY s) /\
+  (forall s, parse_obs s = parse_obs_with OBS_PARSE_CHECKS_DISJOINT s) /\
+  (forall s, parse_action s = parse_action_with ACTION_PARSE_CHECKS_EMPTY s).
+Proof.
+  exact (conj C16_Total.parse_card_with_flag
+           (conj C16_Total.parse_obs_with_flag C16_Total.parse_action_with_flag)).
+Qed.
+Print Assumptions C16_variants_are_model.
+
+(* ... and with a flag off: "é" (one code point, two bytes) aborts the card parser, the empty
+   string aborts the action parser, and "As Ks ~ As Qd Jh" yields an observation holding the
+   ace of spades twice. *)
+Theorem C16_refuted_without_fixes :
+  parse_card_with false [233] = PPanic /\
+  parse_action_with false [] = PPanic /\
+  exists o, parse_obs_with false
+              [65; 115; 32; 75; 115; 32; 126; 32; 65; 115; 32; 81; 100; 32; 74; 104] = POk o /\
+            N.land (pocket o) (public o) <> 0.
+Proof.
+  exact (conj C16_Total.refuted_card (conj C16_Total.refuted_action C16_Total.refuted_obs)).
+Qed.
+Print Assumptions C16_refuted_without_fixes.
+
+(* ---------- 3. returned observations and holes are valid ---------- *)
+Theorem C16_obs_valid : forall s o, parse_obs s = POk o ->
+  hand_size (pocket o) = 2 /\
+  (hand_size (public o) = 0 \/ hand_size (public o) = 3 \/
+   hand_size (public o) = 4 \/ hand_size (public o) = 5) /\
+  N.land (pocket o) (public o) = 0.
+Proof. exact C16_Total.obs_valid. Qed.
+Print Assumptions C16_obs_valid.
+Example C16_obs_valid_hyp : parse_obs C16_Examples.ex_obs_str = POk C16_Examples.ex_obs_val.
+Proof. exact C16_Examples.ex_parse_obs. Qed.
+
+Theorem C16_hole_valid : forall s h, parse_hole s = POk h -> hand_size h = 2.
+Proof. exact C16_Total.hole_valid. Qed.
+Print Assumptions C16_hole_valid.
+Example C16_hole_valid_hyp : parse_hole C16_Examples.ex_hole_str = POk (2 ^ 51 + 2 ^ 47).
+Proof. exact C16_Examples.ex_parse_hole. Qed.
+
+(* ---------- 4. round trips ---------- *)
+Theorem C16_rt_card : forall c, c < 52 -> parse_card (print_card c) = POk c.
+Proof. exact C16_RoundTrip.rt_card. Qed.
+Print Assumptions C16_rt_card.
+Example C16_rt_card_hyp : 51 < 52.
+Proof. exact C16_Examples.ex_card_lt. Qed.
+
+Theorem C16_rt_street : forall z, (0 <= z <= 3)%Z -> parse_street (print_street z) = POk z.
+Proof. exact C16_RoundTrip.rt_street. Qed.
+Print Assumptions C16_rt_street.
+Example C16_rt_street_hyp : (0 <= 2 <= 3)%Z.
+Proof. exact C16_Examples.ex_street. Qed.
+
+Theorem C16_rt_turn : forall t, wf_turn t -> parse_turn (print_turn t) = POk t.
+Proof. exact C16_RoundTrip.rt_turn. Qed.
+Print Assumptions C16_rt_turn.
+Example C16_rt_turn_hyp : wf_turn (TChoice (2 ^ 64 - 1)) /\ wf_turn TTerminal.
+Proof. exact C16_Examples.ex_turn. Qed.
+
+Theorem C16_rt_hand : forall h, h < 2 ^ 52 -> parse_hand (print_hand h) = POk h.
+Proof. exact C16_RoundTrip.rt_hand. Qed.
+Print Assumptions C16_rt_hand.
+Example C16_rt_hand_hyp : 2 ^ 52 - 1 < 2 ^ 52.
+Proof. exact C16_Examples.ex_hand_lt. Qed.
+
+Theorem C16_rt_hole : forall h, h < 2 ^ 52 -> hand_size h = 2 -> parse_hole (print_hand h) = POk h.
+Proof. exact C16_RoundTrip.rt_hole. Qed.
+Print Assumptions C16_rt_hole.
+Example C16_rt_hole_hyp : 2 ^ 51 + 2 ^ 47 < 2 ^ 52 /\ hand_size (2 ^ 51 + 2 ^ 47) = 2.
+Proof. exact C16_Examples.ex_hole. Qed.
+
+Theorem C16_rt_obs : forall o, wf_obs o -> parse_obs (print_obs o) = POk o.
+Proof. exact C16_RoundTrip.rt_obs. Qed.
+Print Assumptions C16_rt_obs.
+Example C16_rt_obs_hyp :
+  wf_obs C15_Examples.ex_obs /\ wf_obs C15_Examples.ex_obs0 /\ wf_obs C16_Examples.ex_obs_val.
+Proof. exact C16_Examples.ex_obs_wfs. Qed.
+
+Theorem C16_rt_action : forall a, wf_action' a -> parse_action (print_action a) = POk a.
+Proof. exact C16_RoundTrip.rt_action. Qed.
+Print Assumptions C16_rt_action.
+Example C16_rt_action_hyp :
+  wf_action' (Raise (-32768)) /\ wf_action' (Call 32767) /\
+  wf_action' (Draw (2 ^ 52 - 1)) /\ wf_action' (Draw 0).
+Proof. exact C16_Examples.ex_actions. Qed.
+
+Theorem C16_rt_abs : forall s i, s <= 3 -> i < 4096 ->
+  forall a, abs_make s i = Some a -> parse_abs (print_abs a) = POk a.
+Proof. exact C16_RoundTrip.rt_abs. Qed.
+Print Assumptions C16_rt_abs.
+Example C16_rt_abs_hyp : 2 <= 3 /\ 4095 < 4096 /\ exists a, abs_make 2 4095 = Some a.
+Proof. exact C16_Examples.ex_abs. Qed.
+
+(* ---------- reusable facts about the integer printers / parsers ---------- *)
+Theorem C16_dec_roundtrip : forall n, n < 2 ^ 64 -> parse_unsigned 10 (print_nat n) = Some n.
+Proof. exact C16_Strings.parse_unsigned_print_nat. Qed.
+Print Assumptions C16_dec_roundtrip.
+
+Theorem C16_i16_roundtrip : forall z, (-32768 <= z <= 32767)%Z -> parse_i16 (print_int z) = Some z.
+Proof. exact C16_Strings.parse_i16_print_int. Qed.
+Print Assumptions C16_i16_roundtrip.
+
+Theorem C16_hex_roundtrip : forall n, n < 2 ^ 64 -> parse_unsigned 16 (hex_digits 16 n []) = Some n.
+Proof. exact C16_Strings.parse_unsigned_hex. Qed.
+Print Assumptions C16_hex_roundtrip.
